@@ -10,6 +10,8 @@ lockstep with the real database of the current workload.
   op addall <t> <heads> <cs> <changes>    heads = `a,b`; changes = `id/prevs/snap/order;…` (`-` = none,
   op deferred <t> <heads> <cs> <changes>       prevs separated by `.`)
   op acl-add <acl> <rec> <prev|-> <order>
+  op addall-noerror <t> <dups> <heads> <cs> <changes>
+  op tree-create-child <t> <queued 0|1>
   op tree-delete <t>                      → `<trace> | single=<0|1> batch=<0|1|->`  (the calls `traceOf` generates;
                                              batch: the AddAll input satisfies `BatchOk` w.r.t. the model's store)
   crash <k>                               → `<pre|post|same|other> <digest>` (state found after a crash just
@@ -44,6 +46,8 @@ def showCall : Call → String
   | .insert k _ => s!"ins:{collName k.coll}:{k.id}"
   | .upsertHeads id _ _ => s!"ups:heads:{id}"
   | .qdelTree _ => "qdel:changes"
+  | .insertDup k => s!"ins:{collName k.coll}:{k.id}!err"
+  | .touchHeads id => s!"ups:heads:{id}"
 
 def showTrace (tr : List Call) : String :=
   if tr.isEmpty then "-" else " ".intercalate (tr.map showCall)
@@ -108,6 +112,11 @@ def parseOp : List String → Option Op
     let acl ← acl.toNat?; let r ← r.toNat?; let p ← parseOpt prev; let o ← order.toNat?
     pure (.aclAdd acl r ⟨p, o⟩)
   | ["tree-delete", t] => do let t ← t.toNat?; pure (.treeDelete t)
+  | ["addall-noerror", t, dups, heads, cs, chs] => do
+    let t ← t.toNat?; let ds ← parseIds dups ","; let hs ← parseIds heads ","; let cs ← cs.toNat?
+    let chs ← parseChanges t chs
+    pure (.addAllNoError t ds chs hs cs)
+  | ["tree-create-child", t, q] => do let t ← t.toNat?; let q ← bool? q; pure (.treeCreateChild t q)
   | _ => none
 
 def postOf (st : St) (op : Op) : AnySync.Store.Store := (exec (Db.idle st.store) (traceOf op)).committed
@@ -122,6 +131,7 @@ def step (st : St) (line : String) : St × String :=
       let acl := match op with | .spaceCreate _ a _ => a | _ => st.acl
       let batch := match op with
         | .addAll t chs hs cs => showBool (batchOkB st.store t chs hs cs)
+        | .addAllNoError t _ chs hs cs => showBool (batchOkB st.store t chs hs cs)
         | .deferredAddAll t chs hs cs =>
           showBool (batchOkB (exec (Db.idle st.store) (traceOf (.treeCreate t))).committed t chs hs cs)
         | _ => "-"
